@@ -153,6 +153,14 @@ def generate(tier, seed, work, stats):
     for i in range(400 if tier == "quick" else 6000):
         c = base[(i * 13) % len(base)]
         cases.append(dict(kind="inter", rules=c["rules"], nts=c["nts"], idx=c["idx"], operand=ops[i % len(ops)], family="inter"))
+    # every automaton of the generator against grammars whose language is known to be non-empty (an empty grammar decides
+    # nothing about the product construction)
+    prod = [c for c in cases if c["family"] == "random-productive" and len(c["rules"]) <= 5]
+    if prod:
+        for i, o in enumerate(ops):
+            for j in range(2 if tier == "quick" else 6):
+                c = prod[(i * 5 + j * 37) % len(prod)]
+                cases.append(dict(kind="inter", rules=c["rules"], nts=c["nts"], idx=c["idx"], operand=o, family="inter-productive"))
     # intersections with random automata over two letters, the second letter spelled like a non-terminal of the grammar
     igs = [c for c in cases if c["kind"] == "ig" and len(c["rules"]) <= 5]
     rops = [o for o in c01.random_cases(800 if tier == "quick" else 8000, seed + 20, nq=3, nt=4) if o["kind"] != "dfa" or True]
